@@ -324,6 +324,21 @@ theorem ed_sub_decode_valid (d : F) (n : Nat) (r : Option (EPt F)) (P : EPt F)
     · simp at hd
   · simp at hd
 
+/-- **curve25519**: the compressed form is the Montgomery `u` only, so a point and its negative always
+share their encoding (for `P ≠ -P` this contradicts "distinct elements have distinct encodings",
+and one of the two cannot round-trip) -/
+theorem mont_compressed_sign_lost (P : EPt F) :
+    Mont.encodeCompressed io len (E.neg P) = Mont.encodeCompressed io len P := by
+  obtain ⟨x, y⟩ := P
+  have hz : ((⟨-x, y⟩ : EPt F) = E.zero) ↔ ((⟨x, y⟩ : EPt F) = E.zero) := by
+    simp [E.zero, EPt.mk.injEq, neg_eq_zero]
+  by_cases h0 : (⟨x, y⟩ : EPt F) = E.zero
+  · have h1 := hz.2 h0
+    simp [Mont.encodeCompressed, E.neg, h0, h1]
+  · have h1 : ¬ (⟨-x, y⟩ : EPt F) = E.zero := fun h => h0 (hz.1 h)
+    simp only [Mont.encodeCompressed, E.neg, h0, h1, if_false]
+    rfl
+
 end others
 
 /-! ## scalars and prime-field elements -/
